@@ -45,3 +45,10 @@ Print Assumptions C14_pow_contains.
 (* non-vacuity: a mixed-sign product takes the min/max branch *)
 Example C14_mixed : mpi_mul (Mpf 1 1 0 1, Mpf 0 1 1 1) (Mpf 1 3 0 2, Mpf 0 1 0 1) 53 = (Mpf 1 3 1 2, Mpf 0 3 0 2).  (* [-1,2]*[-3,1] = [-6,3] *)
 Proof. vm_compute. reflexivity. Qed.
+
+(* negative powers: 1 / x^n, whenever the (prec+20)-bit enclosure of x^n excludes zero *)
+From MP Require Import Proofs.IvCplxPow.
+Theorem C14_pow_neg_contains : forall s p prec x, valid_iv s -> 0 < prec -> in_iv s x ->
+  forall w, mpi_pow_int_pos s (Zpos p) (prec + 20) = Ok w -> ((0 < rv (fst w))%R \/ (rv (snd w) < 0)%R) ->
+  exists r, mpi_pow_int s (Zneg p) prec = Ok r /\ in_iv r (1 / x ^ Pos.to_nat p) /\ valid_iv r.
+Proof. exact mpi_pow_int_neg_contains. Qed.
